@@ -5,6 +5,7 @@ package hsms
 import (
 	"context"
 	"errors"
+	"net"
 	"time"
 
 	"github.com/arloliu/go-secs/v2/secs2"
@@ -72,7 +73,13 @@ func VerifC20_SendOutcomesVT() {
 		v.c.testHookAfterWriteLock = func() { v.s.state.Store(uint32(NotSelectedState)) }
 	}
 	if outcome == c20WriteError {
-		v.tr.writeErr = errors.New("model: broken pipe")
+		// a transport write failure of either class: a plain error, or the timeout-class *net.OpError
+		// a real socket returns when the write deadline expires on a wedged peer
+		if vsymBool() {
+			v.tr.writeErr = errors.New("model: broken pipe")
+		} else {
+			v.tr.writeErr = &net.OpError{Op: "write", Net: "tcp", Err: c20Timeout{}}
+		}
 	}
 	before := v.snap()
 	var err error
@@ -327,3 +334,11 @@ func c20Count(out [2]int, x int) int {
 	}
 	return n
 }
+
+
+// c20Timeout is a timeout-class error as a socket write past its deadline reports it.
+type c20Timeout struct{}
+
+func (c20Timeout) Error() string   { return "i/o timeout (model)" }
+func (c20Timeout) Timeout() bool   { return true }
+func (c20Timeout) Temporary() bool { return true }
